@@ -18,7 +18,9 @@ REQUIRED_FLAGS = ["hanging_note_ons", "after_history", "padded", "rejected_too_l
                   "copy_compared", "dense_bar", "signature_deep_inside_a_dense_bar"]
 
 SIGCFG = ["none", "m0", "m1", "c0", "c1", "m0m1", "m0c1", "c0m1", "d0", "e0", "e1", "m0e1",
-          "c0m0", "m0c0", "c1m1", "e0m0"]      # two different signatures on ONE tick, in either order
+          "c0m0", "m0c0", "c1m1", "e0m0",
+          # "E": on the very last tick of the content (the closing bar line when the content fills the bar)
+          "cE", "m0cE", "eE", "mE", "m0mE"]      # two different signatures on ONE tick, in either order
 
 
 def context(tier, seed):
@@ -94,7 +96,7 @@ def gen_cases(unit, ctx):
             shapes += [[[0, 2, p, 0, 64], [2, 2, p, 0, 50]], [[1, 1, p, 0, 64], [1, 2, p, 1, 50]], [[dur - 2, 2, p, 3, 9]]]
         for notes in shapes:
             for sc in SIGCFG:
-                if "1" in sc and dur < 1:
+                if ("1" in sc or "E" in sc) and dur < 1:
                     continue
                 for key in (None, "C", "F#"):
                     for build in ("abs", "rel"):
@@ -102,11 +104,12 @@ def gen_cases(unit, ctx):
                         yield {"n": n, "d": d, "dur": dur, "notes": notes, "sig": sc, "key": key, "build": build}
 
 
-def sig_events(sc, n, d):
+def sig_events(sc, n, d, dur=0):
     conflict = (n + 1, d) if n != 12 else (n - 1, d)
     other_den = (n, 2 if d != 2 else 4)
     ev = []
     for a, t in zip(sc[0::2], sc[1::2]):
+        t = dur if t == "E" else t
         if a == "m":
             ev.append(["ts", int(t), n, d])
         elif a == "c":
@@ -134,7 +137,7 @@ def check_case(case, ctx):
         dur, notes = case["dur"], case["notes"]
         hanging = [x for x in notes if x[0] == "hang"]
         notes = [x for x in notes if x[0] != "hang"]
-        events = case["events"] if "events" in case else [] if sc == "none" else sig_events(sc, n, d)
+        events = case["events"] if "events" in case else [] if sc == "none" else sig_events(sc, n, d, dur)
         if len(notes) >= 100:
             R.flags.append("dense_bar")
             if any(e[1] >= cap // 4 for e in events):
